@@ -81,6 +81,17 @@ Proof.
     + intros H. injection H as <- <- <- <-. exists []. rewrite app_nil_r. repeat split; auto; try discriminate.
 Qed.
 
+(* the panic flag of [send] is raised only by a panicking encoder *)
+Lemma send_panic_flag frame w bg r w' bg' : send frame w bg = (r, w', bg', true) -> frame = Panic.
+Proof.
+  unfold send. destruct (BACKPRESSURE <=? len (wbuf w)).
+  - destruct (poll_flush w bg) as [[r1 w1] bg1]. destruct r1; try (intros H; discriminate).
+    destruct frame as [f|k|]; [|intros H; discriminate|reflexivity].
+    destruct (poll_flush _ bg1) as [[r2 w2] bg2]. intros H. discriminate.
+  - destruct frame as [f|k|]; [|intros H; discriminate|reflexivity].
+    destruct (poll_flush _ bg) as [[r2 w2] bg2]. intros H. discriminate.
+Qed.
+
 (* a failing encoder leaves the write half untouched (no back-pressure flush pending) *)
 Lemma send_encode_error k w bg : len (wbuf w) < BACKPRESSURE -> send (Fail k) w bg = (SErr k, w, bg, false).
 Proof. intros H. unfold send. destruct (N.leb_spec BACKPRESSURE (len (wbuf w))); [lia|]. reflexivity. Qed.
